@@ -6,6 +6,8 @@ import itertools
 from mc.core import bits
 
 PID = 'C14'
+# thread bodies (defined with engine E4, mc/checks/c10_sched.py) that exercise this property's code; explored after the parts below
+SCHED_SETS = [('construct||construct', 'line')]
 LEVEL = 'model_checking'
 ENGINE = 'E1+E2'
 TECHNIQUE = 'bounded exhaustive enumeration of all ordered BC-point lists (1..3 points over a 3x4 alphabet) against a hand-written clamped linear interpolation, plus all build histories up to depth 3/4 over shared inputs with a snapshot invariant on every transition'
